@@ -105,43 +105,29 @@ def errs_json(errs):
 
 
 class LogCapture:
-    """Captures warnings on the maflib logger tree as (error type, line) pairs."""
-
-    def __init__(self):
-        import logging
-        self.records = []
-        outer = self
-
-        class H(logging.Handler):
-            def emit(self, record):
-                outer.records.append(record.getMessage())
-        self.handler = H()
+    """Window over the records captured on the maflib logger tree."""
 
     def __enter__(self):
-        import logging
-        logging.disable(logging.NOTSET)
-        from maflib.logger import Logger
-        self.loggers = [logging.getLogger()]
-        for lg in self.loggers:
-            lg.addHandler(self.handler)
-        self.old = logging.getLogger().level
+        from .common import CAPTURE
+        self.cap = CAPTURE
+        self.start = len(CAPTURE.records)
         return self
 
     def __exit__(self, *a):
-        import logging
-        for lg in self.loggers:
-            lg.removeHandler(self.handler)
-        logging.disable(logging.CRITICAL)
+        self.records = self.cap.records[self.start:]
+        del self.cap.records[self.start:]
 
     def parsed(self):
+        """(error type, line) per 'Ignoring MAF validation error' warning; other
+        records are reported as ("OTHER:<level>", None)."""
         import re
         out = []
-        for m in self.records:
+        for name, level, m in self.records:
             mm = re.match(r"Ignoring MAF validation error: ([A-Z_]+): (?:On line number (\d+): )?", m)
-            if mm:
+            if mm and level == "WARNING":
                 out.append([mm.group(1), int(mm.group(2)) if mm.group(2) else None])
             else:
-                out.append(["OTHER", None])
+                out.append(["OTHER:" + level, None])
         return out
 
 
